@@ -382,6 +382,17 @@ def check(ctx):
         else:
             r5.bad(V(r5.id, f.id, "serialized-name-origin", "FieldContext.serialized_name is not computed by the naming functions"))
     r5.require_floor(5, "hole bindings")
+    # the Rust name that the serialized name is computed from is the identifier serde sees: `r#type` is the field `type`.  Every construction
+    # site of FieldInfo.name (struct fields and enum variants) unraws the identifier (seed analysis shared with C01's producer model); a quoted
+    # key "r#type" is valid TypeScript, so C01 has nothing to say about it
+    from c01 import Producers as _Prod
+    pm = _Prod(S, ev)
+    for (m_, fld_) in (("FieldInfo", "name"),):
+        if "raw" in pm.model.get((m_, fld_), ()):
+            r5.bad(V(r5.id, "%s.%s" % (m_, fld_), "raw-identifier-kept:%s.%s" % (m_, fld_), "%s.%s keeps the `r#` prefix of a raw identifier at some construction site: "
+                     "the key of `pub r#type: T` becomes \"r#type\" where serde writes \"type\"" % (m_, fld_)))
+        else:
+            r5.ok("%s.%s is the unraw'd identifier at every construction site" % (m_, fld_))
     rules.append(r5)
 
     return finish(
